@@ -94,6 +94,20 @@ func (bs *baseServer) Construct(opt any) {
 
 	bs.opts = options.Assign(opts)
 
+	// every session gets the initial packet: a reader that is not one of the
+	// library's buffers (which are cloned per session) can be read only once,
+	// so it is read here, keeping its kind (a *strings.Reader is text)
+	if initialPacket := bs.opts.InitialPacket(); initialPacket != nil {
+		if _, ok := initialPacket.(types.BufferInterface); !ok {
+			var buffer types.BufferInterface = types.NewBytesBuffer(nil)
+			if _, ok := initialPacket.(*strings.Reader); ok {
+				buffer = types.NewStringBuffer(nil)
+			}
+			buffer.ReadFrom(initialPacket)
+			bs.opts.SetInitialPacket(buffer)
+		}
+	}
+
 	if opts != nil {
 		if cookie := opts.Cookie(); cookie != nil {
 			if len(cookie.Name) == 0 {
